@@ -250,8 +250,8 @@ func (expr *Expression) Materialize(ctx context.Context, env Environment) (execu
 
 		fields := expr.ObjectFieldAccess.Object.Type.Struct.Fields
 		if expr.ObjectFieldAccess.Object.Type.TypeID == octosql.TypeIDUnion {
-			// Nullable object case
-			fields = expr.ObjectFieldAccess.Object.Type.Union.Alternatives[1].Struct.Fields
+			// Nullable object case, the alternatives are the object type and NULL, in either order.
+			fields = octosql.NonNullable(expr.ObjectFieldAccess.Object.Type).Struct.Fields
 		}
 
 		fieldIndex := 0
